@@ -31,11 +31,19 @@ impl<'a, K, T> Iterator for RevisionIterator<'a, K, T> {
     type Item = Vec<(&'a K, &'a T)>;
 
     fn next(&mut self) -> Option<Self::Item> {
-        self.ks
+        // Chains may have different lengths: yield the next element of each
+        // chain that is not exhausted yet, and stop once all of them are.
+        let revision = self
+            .ks
             .iter()
             .zip(self.ls.iter_mut())
-            .map(|(k, it)| it.next().map(|t| (*k, t)))
-            .collect()
+            .filter_map(|(k, it)| it.next().map(|t| (*k, t)))
+            .collect::<Vec<_>>();
+        if revision.is_empty() {
+            None
+        } else {
+            Some(revision)
+        }
     }
 }
 
